@@ -1097,6 +1097,9 @@ func c11Twins(w *mon.W) {
 	pairs := [][2]ref.V{
 		{ref.Int(1), ref.Float(1)}, {ref.Int(10), ref.Float(10)}, {ref.Int(0), ref.Float(0)}, {ref.Int(-3), ref.Float(-3)},
 		{ref.Int(1 << 40), ref.Float(1 << 40)}, {ref.Int(5), ref.Str("5")}, {ref.Bool(true), ref.Str("true")}, {ref.Str("a"), ref.Bytes([]byte("a"))},
+		// NaN equals nothing, itself included - alone, in a list, in a map
+		{ref.Float(math.NaN()), ref.Float(1)}, {ref.List(ref.Int(1), ref.Float(math.NaN())), ref.List(ref.Int(1), ref.Float(2))},
+		{ref.Map(ref.E("k", ref.Float(math.NaN()))), ref.Map(ref.E("k", ref.Float(0)))},
 	}
 	datas := func(a, b ref.V) []ref.V {
 		out := []ref.V{a, b}
